@@ -29,6 +29,19 @@ CONSTANTS = {
         ("W_CONT_BIT", _ENC, r"pub\(crate\) fn write_long<.*?buf\[i\] = \(\(zz & 0x7F\) as u8\) \| " + _H + r";", "int"),
         ("W_SHIFT", _ENC, r"pub\(crate\) fn write_long<.*?i \+= 1;\s*zz >>= ([0-9]+);", "int"),
         ("W_LAST_MASK", _ENC, r"pub\(crate\) fn write_long<.*?\}\s*buf\[i\] = \(zz & " + _H + r"\) as u8;", "int"),
+        # ---- writer: minimal_twos_complement / write_sign_extended (Avro decimal payloads)
+        ("M_SIGN_MASK", _ENC, r"fn minimal_twos_complement\(.*?let sign_byte = if \(be\[0\] & " + _H + r"\) != 0 \{ 0xFF \} else \{ 0x00 \};", "int"),
+        ("M_NEG_BYTE", _ENC, r"fn minimal_twos_complement\(.*?let sign_byte = if \(be\[0\] & 0x80\) != 0 \{ " + _H + r" \} else \{ 0x00 \};", "int"),
+        ("M_POS_BYTE", _ENC, r"fn minimal_twos_complement\(.*?let sign_byte = if \(be\[0\] & 0x80\) != 0 \{ 0xFF \} else \{ " + _H + r" \};", "int"),
+        # the redundancy test `((be[k] ^ sign_byte) & 0x80) == 0`  (k sign bytes are dropped iff the next byte already carries the sign bit)
+        ("M_DROP_MASK", _ENC, r"fn minimal_twos_complement\(.*?let drop = if \(\(be\[k\] \^ sign_byte\) & " + _H + r"\) == 0 \{\s*k\s*\} else \{\s*k - 1\s*\};", "int"),
+        ("M_KEEP_ONE", _ENC, r"fn minimal_twos_complement\(.*?if k == be\.len\(\) \{\s*return &be\[be\.len\(\) - ([0-9]+)\.\.\];", "int"),
+        ("X_SIGN_MASK", _ENC, r"fn write_sign_extended<.*?let sign_byte = if len > 0 && \(src_be\[0\] & " + _H + r"\) != 0 \{", "int"),
+        ("X_TRUNC_MASK", _ENC, r"fn write_sign_extended<.*?\|\| \(\(src_be\[extra\] \^ sign_byte\) & " + _H + r"\) != 0", "int"),
+        # ---- reader: sign_cast_to
+        ("S_SIGN_MASK", _REC, r"fn sign_cast_to<.*?let sign_byte = if \(first & " + _H + r"\) == 0 \{ 0x00 \} else \{ 0xFF \};", "int"),
+        ("S_NEG_BYTE", _REC, r"fn sign_cast_to<.*?let sign_byte = if \(first & 0x80\) == 0 \{ 0x00 \} else \{ " + _H + r" \};", "int"),
+        ("S_TRUNC_MASK", _REC, r"fn sign_cast_to<.*?let sign_bit_mismatch = \(\(first_kept \^ sign_byte\) & " + _H + r"\) != 0;", "int"),
         # ---- writer: nullable union branch byte
         ("W_BRANCH_A", _ENC, r"fn union_value_branch_byte\(.*?if nulls_first == is_null \{ " + _H + r" \} else \{ 0x[0-9A-Fa-f]+ \}", "int"),
         ("W_BRANCH_B", _ENC, r"fn union_value_branch_byte\(.*?if nulls_first == is_null \{ 0x[0-9A-Fa-f]+ \} else \{ " + _H + r" \}", "int"),
